@@ -40,7 +40,14 @@ LexSentence(s) == [term |-> LexTree(s.t), punctuation |-> RE.punct[s.p], stamp |
 LexN(x) == CASE x.kind = "term" -> [kind |-> "term", v |-> LexTree(x.v)]
              [] x.kind = "sentence" -> [kind |-> "sentence", v |-> LexSentence(x.v)]
              [] x.kind = "task" -> [kind |-> "task", v |-> [budget |-> x.v.b, sentence |-> LexSentence(x.v.s)]]
-EnumVals == {AsTerm(t) : t \in U1 \cup AtomsU0 \cup ImgWithLatePH \cup (IF TIER = "thorough" THEN U2rSet(0) ELSE Sample(U2rSet(0), 40, SEED))}
+\* names that end with '_' in front of every kind of following token, bare and inside every kind of parent
+UnderscoreEnd ==
+  LET X == {W("a_"), DV("b_"), OP("op_"), W("x-y_")}
+      S == UNION {{[k |-> "Inheritance", a |-> x, b |-> W("b")], [k |-> "Implication", a |-> x, b |-> W("b")], [k |-> "Similarity", p |-> {x, W("b")}],
+                   [k |-> "Inheritance", a |-> W("b"), b |-> x], [k |-> "Product", q |-> <<x, W("b")>>], [k |-> "SetExtension", s |-> {x}]} : x \in X}
+  IN X \cup S \cup {SE1(t) : t \in S} \cup {[k |-> "Product", q |-> <<t, W("c")>>] : t \in S} \cup {[k |-> "Negation", a |-> t] : t \in S}
+     \cup {[k |-> "Conjunction", s |-> {t, W("c")}] : t \in S}
+EnumVals == {AsTerm(t) : t \in UnderscoreEnd} \cup {AsTerm(t) : t \in U1 \cup AtomsU0 \cup ImgWithLatePH \cup (IF TIER = "thorough" THEN U2rSet(0) ELSE PairCoverSet(0) \cup Sample(U2rSet(0), 40, SEED))}
             \cup (IF TIER = "thorough" THEN EnvelopeFullSet(0) ELSE EnvelopeQuickSet(0)) \cup RichEnvelopeSet(0)
 \* lexical values the enum model cannot express: derived copulas, uninterpreted arities, long truth / budget lists
 A1 == LAtom("", "a")
